@@ -842,6 +842,11 @@ func expandAlt(v ssa.Value, conds []Cond, b *ssa.BasicBlock, ret *ssa.Return, de
 		return []RetAlt{{v, conds, b, ret}}
 	}
 	// a returned call of a transparent helper: the helper's own ways of returning
+	if mi, isMI := v.(*ssa.MakeInterface); isMI && len(helpers) > 0 {
+		if hv, _ := helperValue(mi.X); hv != nil {
+			return expandAlt(mi.X, conds, b, ret, depth)
+		}
+	}
 	if hv, idx := helperValue(v); hv != nil {
 		var out []RetAlt
 		for _, hb := range hv.fn.Blocks {
@@ -1272,6 +1277,26 @@ func helperValue(v ssa.Value) (*helper, int) {
 
 // unhelp: the value behind a call of a transparent helper that has a single way of returning it.
 func unhelp(v ssa.Value) ssa.Value {
+	// a field of a local carrier struct that is written exactly once: the value written
+	for i := 0; i < 3; i++ {
+		u, ok := v.(*ssa.UnOp)
+		if !ok || u.Op != token.MUL {
+			break
+		}
+		fa, ok := u.X.(*ssa.FieldAddr)
+		if !ok {
+			break
+		}
+		a, ok := fa.X.(*ssa.Alloc)
+		if !ok {
+			break
+		}
+		sv := singleFieldStore(a, fa.Field)
+		if sv == nil {
+			break
+		}
+		v = sv
+	}
 	for i := 0; i < 4 && len(helpers) > 0; i++ {
 		// a parameter of a transparent helper with one call site: the argument
 		if p, isP := v.(*ssa.Parameter); isP {
